@@ -129,7 +129,8 @@ Theorem outermost_meshes_flagged : forall g fl k m,
   f_cb (nth m (set_outermost g fl k) flags0) = f_cb (nth m fl flags0) /\
   f_iso (nth m (set_outermost g fl k) flags0) = f_iso (nth m fl flags0) /\
   f_out (nth m (set_outermost g fl k) flags0) =
-    (f_out (nth m fl flags0) || (memn m (flat_map (fun b => map snd (b_om b)) (dom g k)) && Nat.ltb m (length fl))).
+    (f_out (nth m fl flags0) || (memn m (flat_map (fun b => map snd (b_om b)) (dom g k)) && Nat.ltb m (length fl)
+                                  && negb (f_iso (nth m fl flags0)))).
 Proof. intros g fl k m. rewrite set_outermost_raise. apply raise_out_spec. Qed.
 Print Assumptions outermost_meshes_flagged.
 
@@ -243,3 +244,58 @@ Theorem cond_missing_domain_rejected : forall (V : Type) (ls : list (cline V)) d
   In d doms -> first_entry d ls = None -> load_cond true ls doms = None.
 Proof. exact load_cond_missing. Qed.
 Print Assumptions cond_missing_domain_rejected.
+
+(* --- the index hypotheses of other properties, discharged for every finalized geometry with well-formed mesh files
+   (coq/Geom/IndexBridge*.v).  wf_indexed is the hypothesis of C10's head-matrix theorems (Properties_C10.v),
+   well_indexed that of C05's loop theorems (Properties_C05.v). *)
+From OM Require Geom.Assembly Geom.AssemblyProofs Geom.ParLoopsGeom.
+From OM Require Import Geom.IndexBridge Geom.IndexBridgeC10 Geom.IndexBridgeC05.
+
+Theorem finalize_gives_wf_indexed : forall g hasc zero snz fi sig sinv ind,
+  finalize g hasc zero snz false = (StOk, Some fi) -> meshes_well_formed g ->
+  AssemblyProofs.wf_indexed (to_igeom g fi sig sinv ind) (VV g fi).
+Proof. intros. eapply finalize_wf_indexed; eauto. Qed.
+Print Assumptions finalize_gives_wf_indexed.
+
+(* isolated meshes are never flagged outermost (needed by the deflation; true since the repair of set_to_outermost) *)
+Theorem isolated_mesh_never_outermost : forall g hasc zero snz old fi, finalize g hasc zero snz old = (StOk, Some fi) ->
+  forall m, f_iso (nth m (mk_flags (fi_marks fi)) flags0) = true -> f_out (nth m (mk_flags (fi_marks fi)) flags0) = false.
+Proof. exact finalize_quiet. Qed.
+Print Assumptions isolated_mesh_never_outermost.
+
+Theorem finalize_gives_well_indexed : forall g hasc zero snz fi,
+  finalize g hasc zero snz false = (StOk, Some fi) -> meshes_well_formed g ->
+  ParLoopsGeom.well_indexed (isV g fi) (assembly_meshes g fi).
+Proof. intros. eapply finalize_well_indexed; eauto. Qed.
+Print Assumptions finalize_gives_well_indexed.
+
+
+(* --- character level (coq/Geom/GeomLex.v, under the token-level readers; tied by correspondence on the files and on
+   textual variants of them): what io_utils::token accepts between a keyword and the colon *)
+From OM Require Import Geom.GeomLex Geom.GeomLexProofs.
+
+Theorem lexer_name_after_one_blank : forall sp name rest, isspace sp = true -> plain name -> name <> [] ->
+  token (mkS (sp :: name ++ 58%nat :: rest) false) = (mkS rest false, name).
+Proof. exact token_one_blank. Qed.
+Print Assumptions lexer_name_after_one_blank.
+
+Theorem lexer_two_blanks_rejected : forall sp1 sp2 l, isspace sp1 = true -> isspace sp2 = true ->
+  bad (fst (token (mkS (sp1 :: sp2 :: l) false))) = true.
+Proof. exact token_two_blanks. Qed.
+Print Assumptions lexer_two_blanks_rejected.
+
+Theorem lexer_blank_before_colon_rejected : forall sp name sp2 rest, isspace sp = true -> plain name -> name <> [] ->
+  isspace sp2 = true -> bad (fst (token (mkS (sp :: name ++ sp2 :: 58%nat :: rest) false))) = true.
+Proof. exact token_blank_before_colon. Qed.
+Print Assumptions lexer_blank_before_colon_rejected.
+
+Theorem lexer_failed_stream_is_inert : forall s, bad s = true ->
+  ws s = s /\ skip_comments s = s /\ (forall p, mtch p s = s) /\ (forall p, mtch_opt p s = (s, false))
+  /\ read_nat s = (s, 0%nat) /\ read_word s = (s, []) /\ token s = (s, []) /\ filename s = (s, []) /\ line_tokens s = (s, []).
+Proof. exact failed_stream_is_inert. Qed.
+Print Assumptions lexer_failed_stream_is_inert.
+
+Theorem lexer_comment_line_skipped : forall f body rest, ~ In 10%nat body ->
+  skip_comments_l (S f) (35%nat :: body ++ 10%nat :: rest) = skip_comments_l f rest.
+Proof. exact comment_line_skipped. Qed.
+Print Assumptions lexer_comment_line_skipped.
